@@ -1,6 +1,6 @@
 (** Capture - the statements used by Props/C20.v *)
 From Coq Require Import List String Ascii Bool Arith NArith Lia.
-From MX Require Import Capture.Model Capture.Texts Capture.Proofs Capture.ProofsDef Capture.ProofsDoc.
+From MX Require Import Capture.Model Capture.Texts Capture.Proofs Capture.ProofsDef Capture.ProofsDoc Capture.ProofsStored.
 Import ListNotations.
 Open Scope list_scope.
 
@@ -79,6 +79,32 @@ Proof.
   destruct (set_doc_text_keeps t d) as (H1 & H2 & H3).
   repeat split; try assumption. apply read_back.
 Qed.
+
+(** full statement for [set_doc]: the stored text after the edit is the old
+    one with the docstring statement replaced, it is stored again (so
+    idempotence and further edits apply), and the documentation read back is [d] *)
+Lemma doc_main t name npos d :
+  wf_dtext t name npos -> safe_doc d = true ->
+  let s' := set_doc_src (drender t) (dpos_of t) d false name npos in
+  s' = drender (set_doc_text t d)
+  /\ stored s' name npos
+  /\ init_from_funcdef s' (Some name) None npos = s'
+  /\ read_doc (skipn (dp_S (dpos_of t)) s') = Some d.
+Proof.
+  intros W Hs s'. subst s'. rewrite set_doc_main by assumption.
+  assert (St : stored (drender (set_doc_text t d)) name npos)
+    by (apply edited_stored; [assumption|now apply safe_doc_ok]).
+  repeat split; try assumption.
+  - now apply stored_fixed.
+  - now apply read_back.
+Qed.
+
+Lemma doc_check_main t name npos : wf_dtextb t name npos = true -> wf_dtext t name npos.
+Proof. apply wf_dtextb_spec. Qed.
+
+Lemma stored_main s name npos :
+  stored s name npos -> init_from_funcdef s (Some name) None npos = s.
+Proof. apply stored_fixed. Qed.
 
 Lemma lambda_main t :
   wf_ltext t = true ->
